@@ -17,70 +17,7 @@
  * Image.hh defines it (regression-strength, see props/C07.py NOT_DECIDED). */
 #ifndef C07_IMAGE_H
 #define C07_IMAGE_H
-#include "contracts/C07_types.h"
-
-/* ---- ghosts (defined in the harness) ---- */
-extern const Image *g_dimg, *g_simg, *g_mimg;
-/* ghosts that only name the canvas shapes on entry, so that a counterexample carries them to the native replay */
-extern ssize_t g_dw, g_dh, g_sw, g_sh, g_mw, g_mh;
-extern bool g_dalpha, g_salpha, g_malpha;
-extern uint8_t g_dcw, g_scw, g_mcw;
-#define SHAPE_IS(i, w, h, al, cw) ((i)->width == (w) && (i)->height == (h) && (i)->has_alpha == (al) && (i)->channel_width == (cw))
-extern ssize_t g_dx, g_dy, g_sx, g_sy, g_mx, g_my, g_ex, g_ey;
-extern uint64_t g_dr, g_dg, g_db, g_da, g_sr, g_sg, g_sb, g_sa, g_mr, g_mg, g_mb, g_ma, g_er, g_eg, g_eb, g_ea;
-/* the custom_blit callback is an arbitrary function; it is sampled at one symbolic argument tuple */
-extern uint32_t g_cb_d, g_cb_s, g_cb_out;
-/* clamp_blit_dimensions: width/height before its final "empty if negative" step (witness assigned by a ghost statement inside the function) */
-extern ssize_t g_cw, g_ch;
-/* blend arithmetic, sampled at one symbolic argument tuple per channel ("function point"): alpha g_t_al, colour/source channel g_t_c*,
- * destination channel g_t_d*, divisor g_t_mx, effective-alpha inputs g_t_e1,g_t_e2; g_bo_* / g_bo_e name the results.  The formulas
- * are only ever evaluated on these never-assigned ghosts, so every instance in a verification condition is the same term. */
-extern bool g_tup_ok;
-extern uint64_t g_t_al, g_t_cr, g_t_cg, g_t_cb, g_t_ca, g_t_dr, g_t_dg, g_t_db, g_t_da, g_t_mx, g_t_e1, g_t_e2, g_bo_r, g_bo_g, g_bo_b, g_bo_a, g_bo_e;
-extern uint64_t g_ci_dr, g_ci_dg, g_ci_db, g_ci_da, g_ci_sr, g_ci_sg, g_ci_sb, g_ci_sa, g_co_r, g_co_g, g_co_b, g_co_a;
-
-/* ---- type invariant of Image, coordinate range ---- */
-#ifdef VERIF_SMALL       /* re-ask for a counterexample that the native replay driver can rebuild: canvases <= 16x16, |coordinate| < 64 */
-#define C07_CBITS 6
-#undef C07_DIMMAX
-#define C07_DIMMAX 17
-#endif
-#ifndef C07_CBITS
-#define C07_CBITS 61
-#endif
-#define C07_CMAX ((ssize_t)1 << C07_CBITS)          /* |coordinate| < 2^61: no signed overflow (UB) in the clipping arithmetic */
-#ifndef C07_DIMMAX
-#define C07_DIMMAX C07_CMAX                         /* canvas width/height: any non-negative value below 2^61 */
-#endif
-#define COORD_OK(v) (-C07_CMAX < (v) && (v) < C07_CMAX)
-#define MASKW(cw) (0xFFFFFFFFFFFFFFFFULL >> (64 - (cw)))
-#define CW_OK(i) ((i)->channel_width == 8 || (i)->channel_width == 16 || (i)->channel_width == 32 || (i)->channel_width == 64)
-#define IMG_VALID(i) (CW_OK(i) && (i)->max_value == MASKW((i)->channel_width) && \
-                      (i)->width >= 0 && (i)->height >= 0 && (i)->width < C07_DIMMAX && (i)->height < C07_DIMMAX)
-#define OUTSIDE(i, x, y) ((x) < 0 || (y) < 0 || (x) >= (i)->width || (y) >= (i)->height)
-/* a ghost pixel value is one that read_pixel can report: channels within the channel width, alpha == max without alpha channel */
-#define GHOST_WF(i, r, g, b, a) ((r) <= (i)->max_value && (g) <= (i)->max_value && (b) <= (i)->max_value && (a) <= (i)->max_value && \
-                                 ((i)->has_alpha || (a) == (i)->max_value))
-
-/* ---- what a stored pixel looks like after write_pixel(r,g,b,a) ---- */
-#define WCH(v, i) (((uint64_t)(v)) & (i)->max_value)
-#define WA(v, i) ((i)->has_alpha ? (((uint64_t)(v)) & (i)->max_value) : (i)->max_value)
-
-/* ---- clause macros shared with the memory-level obligations ---- */
-#define WP_EXC(i, x, y, exc) (OUTSIDE(i, x, y) ? (exc) == EXC_out_of_range : (exc) == 0)
-#define WP_PIX(i, x, y, r, g, b, a, gx, gy, o_r, o_g, o_b, o_a, n_r, n_g, n_b, n_a) \
-  ((!OUTSIDE(i, x, y) && (x) == (gx) && (y) == (gy)) \
-     ? ((n_r) == WCH(r, i) && (n_g) == WCH(g, i) && (n_b) == WCH(b, i) && (n_a) == WA(a, i)) \
-     : ((n_r) == (o_r) && (n_g) == (o_g) && (n_b) == (o_b) && (n_a) == (o_a)))
-#define RP_PIX(i, x, y, r, g, b, a, gx, gy, v_r, v_g, v_b, v_a) \
-  ((!OUTSIDE(i, x, y) && (x) == (gx) && (y) == (gy)) ==> \
-   (((r) == 0 || *(r) == (v_r)) && ((g) == 0 || *(g) == (v_g)) && ((b) == 0 || *(b) == (v_b)) && ((a) == 0 || *(a) == (v_a))))
-/* 0xRRGGBBAA packing of the uint32_t overloads */
-#define COMPRESS(r, g, b, a) ((uint32_t)((((r) & 0xFF) << 24) | (((g) & 0xFF) << 16) | (((b) & 0xFF) << 8) | ((a) & 0xFF)))
-#define C_R(c) ((uint64_t)(((c) >> 24) & 0xFF))
-#define C_G(c) ((uint64_t)(((c) >> 16) & 0xFF))
-#define C_B(c) ((uint64_t)(((c) >> 8) & 0xFF))
-#define C_A(c) ((uint64_t)((c) & 0xFF))
+#include "contracts/C07_clauses.h"
 
 #ifdef C07_GHOST2
 #define G2_ENS(x) __CPROVER_ensures(x)
@@ -151,43 +88,107 @@ __CPROVER_assigns(verif_exc, g_dr, g_dg, g_db, g_da);
 #define OLD_DA __CPROVER_old(g_da)
 #define D4_OLD D4(OLD_DR, OLD_DG, OLD_DB, OLD_DA)
 #define D_ASSIGNS verif_exc, g_dr, g_dg, g_db, g_da
+#define CLAMP_GHOSTS g_cw, g_ch, g_mx0, g_mx1, g_mx2, g_mx3, g_mx4, g_my0, g_my1, g_my2, g_my3, g_my4
 
 /* ================= clamp_blit_dimensions: result rectangle == intersection model ================= */
-/* a destination column px is copied iff it lies in the requested span, inside the destination, and its source column inside the source */
+/* per axis: a destination column p is copied iff it lies in the requested span, inside the destination, and its source column inside the source */
 #define AXIS_MODEL(p, x, w, sx, dlim, slim) ((p) >= (x) && (p) - (x) < (w) && (p) >= 0 && (p) < (dlim) && (sx) + ((p) - (x)) >= 0 && (sx) + ((p) - (x)) < (slim))
 #define AXIS_IN(p, x, w) ((p) >= (x) && (p) - (x) < (w))
-#define CLAMP_REQ \
-  __CPROVER_requires(__CPROVER_is_fresh(dest, sizeof(Image))) __CPROVER_requires(__CPROVER_is_fresh(source, sizeof(Image))) \
-  __CPROVER_requires(__CPROVER_is_fresh(x, sizeof(ssize_t))) __CPROVER_requires(__CPROVER_is_fresh(y, sizeof(ssize_t))) \
-  __CPROVER_requires(__CPROVER_is_fresh(w, sizeof(ssize_t))) __CPROVER_requires(__CPROVER_is_fresh(h, sizeof(ssize_t))) \
-  __CPROVER_requires(__CPROVER_is_fresh(sx, sizeof(ssize_t))) __CPROVER_requires(__CPROVER_is_fresh(sy, sizeof(ssize_t)))
-#define CLAMP_VAL \
-  __CPROVER_requires(IMG_VALID(dest)) __CPROVER_requires(IMG_VALID(source)) \
-  __CPROVER_requires(COORD_OK(*x) && COORD_OK(*y)) __CPROVER_requires(COORD_OK(*sx) && COORD_OK(*sy)) \
-  __CPROVER_requires(0 <= *w && *w < C07_CMAX && 0 <= *h && *h < C07_CMAX) __CPROVER_requires(COORD_OK(g_dx) && COORD_OK(g_dy))
-#ifndef CLAMP_POINTERS_FROM_CALLER
-#define CLAMP_PTRS CLAMP_REQ
+/* ghost flags assigned by ghost statements inside the function (props/C07.py:clamp_ghost): g_mxK / g_myK = "the model, evaluated on the
+ * current values of (x,w,sx) / (y,h,sy), copies the symbolic column g_dx / row g_dy" at entry (K=0) and after each of the four clipping
+ * steps of the axis (K=1..4).  The model is invariant under every step and, after the last one, it is plain span membership: the chain
+ * g_m0 == .. == g_m4 == AXIS_IN is "the result is sound and maximal".  One link per obligation group (a single 64-bit query for the
+ * whole chain is out of reach of every back end; each link alone takes seconds). */
+extern bool g_mx0, g_mx1, g_mx2, g_mx3, g_mx4, g_my0, g_my1, g_my2, g_my3, g_my4;
+#define CLAMP_MX(dest, source) AXIS_MODEL(g_dx, *x, *w, *sx, (dest)->width, (source)->width)
+#define CLAMP_MY(dest, source) AXIS_MODEL(g_dy, *y, *h, *sy, (dest)->height, (source)->height)
+/* CLAMP_ONLY=k: emit only clause set k (enforcing groups); undefined: the whole contract (what callers see) */
+#if !defined(CLAMP_ONLY)
+#define CE(k, e) __CPROVER_ensures(e)
 #else
-#define CLAMP_PTRS
+#define CE(k, e) CE_K##k(e)
+#if CLAMP_ONLY == 0
+#define CE_K0(e) __CPROVER_ensures(e)
+#else
+#define CE_K0(e)
+#endif
+#if CLAMP_ONLY == 1
+#define CE_K1(e) __CPROVER_ensures(e)
+#else
+#define CE_K1(e)
+#endif
+#if CLAMP_ONLY == 2
+#define CE_K2(e) __CPROVER_ensures(e)
+#else
+#define CE_K2(e)
+#endif
+#if CLAMP_ONLY == 3
+#define CE_K3(e) __CPROVER_ensures(e)
+#else
+#define CE_K3(e)
+#endif
+#if CLAMP_ONLY == 4
+#define CE_K4(e) __CPROVER_ensures(e)
+#else
+#define CE_K4(e)
+#endif
+#if CLAMP_ONLY == 5
+#define CE_K5(e) __CPROVER_ensures(e)
+#else
+#define CE_K5(e)
+#endif
+#if CLAMP_ONLY == 6
+#define CE_K6(e) __CPROVER_ensures(e)
+#else
+#define CE_K6(e)
+#endif
+#if CLAMP_ONLY == 7
+#define CE_K7(e) __CPROVER_ensures(e)
+#else
+#define CE_K7(e)
+#endif
+#if CLAMP_ONLY == 8
+#define CE_K8(e) __CPROVER_ensures(e)
+#else
+#define CE_K8(e)
+#endif
+#if CLAMP_ONLY == 9
+#define CE_K9(e) __CPROVER_ensures(e)
+#else
+#define CE_K9(e)
+#endif
+#if CLAMP_ONLY == 10
+#define CE_K10(e) __CPROVER_ensures(e)
+#else
+#define CE_K10(e)
+#endif
 #endif
 void clamp_blit_dimensions(const Image* dest, const Image* source, ssize_t* x, ssize_t* y, ssize_t* w, ssize_t* h, ssize_t* sx, ssize_t* sy)
-CLAMP_PTRS
-CLAMP_VAL
+__CPROVER_requires(__CPROVER_is_fresh(dest, sizeof(Image))) __CPROVER_requires(__CPROVER_is_fresh(source, sizeof(Image)))
+__CPROVER_requires(IMG_VALID(dest)) __CPROVER_requires(IMG_VALID(source))
+__CPROVER_requires(dest->width == g_dw && dest->height == g_dh && source->width == g_sw && source->height == g_sh)
+__CPROVER_requires(__CPROVER_w_ok(x, sizeof(ssize_t)) && __CPROVER_w_ok(y, sizeof(ssize_t)) && __CPROVER_w_ok(w, sizeof(ssize_t)))
+__CPROVER_requires(__CPROVER_w_ok(h, sizeof(ssize_t)) && __CPROVER_w_ok(sx, sizeof(ssize_t)) && __CPROVER_w_ok(sy, sizeof(ssize_t)))
+__CPROVER_requires(COORD_OK(*x) && COORD_OK(*y)) __CPROVER_requires(COORD_OK(*sx) && COORD_OK(*sy))
+__CPROVER_requires(0 <= *w && *w < C07_CMAX && 0 <= *h && *h < C07_CMAX) __CPROVER_requires(COORD_OK(g_dx) && COORD_OK(g_dy))
 /* (1) origins are never negative; the destination-to-source offset is preserved */
-__CPROVER_ensures(*x >= 0 && *sx >= 0 && *x - *sx == __CPROVER_old(*x) - __CPROVER_old(*sx))
-__CPROVER_ensures(*y >= 0 && *sy >= 0 && *y - *sy == __CPROVER_old(*y) - __CPROVER_old(*sy))
+CE(0, *x >= 0 && *sx >= 0 && *x - *sx == __CPROVER_old(*x) - __CPROVER_old(*sx))
+CE(0, *y >= 0 && *sy >= 0 && *y - *sy == __CPROVER_old(*y) - __CPROVER_old(*sy))
 /* (2) per axis, a non-empty span lies inside both canvases: every pixel accessor call of the blit loops is in range
  *     (subtraction form and explicit bounds: no term of these clauses can wrap) */
-__CPROVER_ensures(*x < 2 * C07_CMAX && *sx < 2 * C07_CMAX && g_cw <= __CPROVER_old(*w) && g_cw > -4 * C07_CMAX)
-__CPROVER_ensures(*y < 2 * C07_CMAX && *sy < 2 * C07_CMAX && g_ch <= __CPROVER_old(*h) && g_ch > -4 * C07_CMAX)
-__CPROVER_ensures(g_cw > 0 ==> (g_cw <= dest->width - *x && g_cw <= source->width - *sx))
-__CPROVER_ensures(g_ch > 0 ==> (g_ch <= dest->height - *y && g_ch <= source->height - *sy))
-/* (3) per axis, sound and maximal: the symbolic destination column/row is in the span iff the intersection model copies it */
-__CPROVER_ensures(AXIS_IN(g_dx, *x, g_cw) == AXIS_MODEL(g_dx, __CPROVER_old(*x), __CPROVER_old(*w), __CPROVER_old(*sx), dest->width, source->width))
-__CPROVER_ensures(AXIS_IN(g_dy, *y, g_ch) == AXIS_MODEL(g_dy, __CPROVER_old(*y), __CPROVER_old(*h), __CPROVER_old(*sy), dest->height, source->height))
-/* (4) the result is the rectangle of the two spans, or empty if either span is negative */
-__CPROVER_ensures((g_cw < 0 || g_ch < 0) ? (*w == 0 && *h == 0) : (*w == g_cw && *h == g_ch))
-__CPROVER_assigns(*x, *y, *w, *h, *sx, *sy, g_cw, g_ch);
+CE(0, *x < 2 * C07_CMAX && *sx < 2 * C07_CMAX && g_cw <= __CPROVER_old(*w) && g_cw > -4 * C07_CMAX)
+CE(0, *y < 2 * C07_CMAX && *sy < 2 * C07_CMAX && g_ch <= __CPROVER_old(*h) && g_ch > -4 * C07_CMAX)
+CE(0, g_cw > 0 ==> (g_cw <= dest->width - *x && g_cw <= source->width - *sx))
+CE(0, g_ch > 0 ==> (g_ch <= dest->height - *y && g_ch <= source->height - *sy))
+/* (3) the result is the rectangle of the two spans, or empty if either span is negative */
+CE(0, (g_cw < 0 || g_ch < 0) ? (*w == 0 && *h == 0) : (*w == g_cw && *h == g_ch))
+/* (4) per axis, sound and maximal: chain of model flags (see above) */
+CE(0, g_mx0 == AXIS_MODEL(g_dx, __CPROVER_old(*x), __CPROVER_old(*w), __CPROVER_old(*sx), dest->width, source->width))
+CE(0, g_my0 == AXIS_MODEL(g_dy, __CPROVER_old(*y), __CPROVER_old(*h), __CPROVER_old(*sy), dest->height, source->height))
+CE(1, g_mx0 == g_mx1) CE(2, g_mx1 == g_mx2) CE(3, g_mx2 == g_mx3) CE(4, g_mx3 == g_mx4) CE(5, g_mx4 == AXIS_IN(g_dx, *x, g_cw))
+CE(6, g_my0 == g_my1) CE(7, g_my1 == g_my2) CE(8, g_my2 == g_my3) CE(9, g_my3 == g_my4) CE(10, g_my4 == AXIS_IN(g_dy, *y, g_ch))
+__CPROVER_assigns(*x, *y, *w, *h, *sx, *sy, g_cw, g_ch, g_mx0, g_mx1, g_mx2, g_mx3, g_mx4, g_my0, g_my1, g_my2, g_my3, g_my4);
+/* what callers conclude from (4): INRECT(g_dx, g_dy, *x, *y, *w, *h) holds iff both axis models hold on the entry values */
 
 /* ================= colour rules (new value of D as a function of S, the old D and the arguments) ================= */
 /* the 8-bit alpha blend of fill_rect and blit, as computed by the pinned commit */
@@ -204,6 +205,16 @@ __CPROVER_assigns(*x, *y, *w, *h, *sx, *sy, g_cw, g_ch);
 #define TUP_IS(al, cr, cg, cb, ca, dr, dg, db, da) \
   (g_t_al == (al) && g_t_cr == (cr) && g_t_cg == (cg) && g_t_cb == (cb) && g_t_ca == (ca) && \
    g_t_dr == (dr) && g_t_dg == (dg) && g_t_db == (db) && g_t_da == (da))
+
+/* DEF_REQ: "the ghosts g_bo_* are the specification's blend of the tuple".  Asserted wherever a loop-level contract is *used* (wrappers, lemmas,
+ * -- it is what justifies the helper models of stubs/C07_pixel_model.h from the proved helper contracts); the enforcing loop proof itself is
+ * compiled with -DC07_LOOP_PROOF and does not assume it (it proves the contract for every valuation of g_bo_*, given the helper models), which
+ * keeps multiplication and division out of the loop verification conditions. */
+#ifdef C07_LOOP_PROOF
+#define DEF_REQ(def)
+#else
+#define DEF_REQ(def) __CPROVER_requires(g_tup_ok ==> def)
+#endif
 
 /* fill_rect: a == 0xFF stores the colour; otherwise the 8-bit blend of colour and old pixel, i.e. (with the tuple (a; r,g,b,a; old D))
  * WCH(BL8(a, r, old_dr)) ... -- claimed for the valuations with g_tup_ok */
@@ -362,7 +373,7 @@ void Image_fill_rect(Image* self, ssize_t x, ssize_t y, ssize_t w, ssize_t h, ui
 DST_REQ(self)
 __CPROVER_requires(COORD_OK(x) && COORD_OK(y) && COORD_OK(w) && COORD_OK(h))
 __CPROVER_requires(g_tup_ok ==> FILL_TUP(g_dr, g_dg, g_db, g_da))
-__CPROVER_requires(g_tup_ok ==> TUP_DEF8)
+DEF_REQ(TUP_DEF8)
 __CPROVER_ensures(verif_exc == 0)
 __CPROVER_ensures(INRECT(g_dx, g_dy, x, y, w, h) ? (FILL_COND ==> D4_RULE(FILL)) : D4_OLD)
 __CPROVER_assigns(D_ASSIGNS);
@@ -375,7 +386,7 @@ void Image_fill_rect_c(Image* self, ssize_t x, ssize_t y, ssize_t w, ssize_t h, 
 DST_REQ(self)
 __CPROVER_requires(COORD_OK(x) && COORD_OK(y) && COORD_OK(w) && COORD_OK(h))
 __CPROVER_requires(g_tup_ok ==> FILL_TUP(g_dr, g_dg, g_db, g_da))
-__CPROVER_requires(g_tup_ok ==> TUP_DEF8)
+DEF_REQ(TUP_DEF8)
 __CPROVER_ensures(verif_exc == 0)
 __CPROVER_ensures(INRECT(g_dx, g_dy, x, y, w, h) ? (FILL_COND ==> D4_RULE(FILL)) : D4_OLD)
 __CPROVER_assigns(D_ASSIGNS);
@@ -404,14 +415,14 @@ __CPROVER_assigns(D_ASSIGNS);
 #define BLIT_ENS(n) \
   __CPROVER_ensures(verif_exc == 0) \
   __CPROVER_ensures(BLIT_HITS ? D4_RULE(n) : D4_OLD) \
-  __CPROVER_assigns(D_ASSIGNS, g_cw, g_ch)
+  __CPROVER_assigns(D_ASSIGNS, CLAMP_GHOSTS)
 /* variants with blend arithmetic: the blended case is claimed for the valuations where the tuple ghosts name the blend (g_tup_ok) */
 #define BLIT_ENS_ARITH(n, def) \
   __CPROVER_requires(g_tup_ok ==> n##_TUP(g_dr, g_dg, g_db, g_da)) \
-  __CPROVER_requires(g_tup_ok ==> def) \
+  DEF_REQ(def) \
   __CPROVER_ensures(verif_exc == 0) \
   __CPROVER_ensures(BLIT_HITS ? (n##_COND ==> D4_RULE(n)) : D4_OLD) \
-  __CPROVER_assigns(D_ASSIGNS, g_cw, g_ch)
+  __CPROVER_assigns(D_ASSIGNS, CLAMP_GHOSTS)
 #define BLIT_PARAMS Image* self, const Image* source, ssize_t x, ssize_t y, ssize_t w, ssize_t h, ssize_t sx, ssize_t sy
 
 void Image_blit(BLIT_PARAMS)
@@ -445,7 +456,7 @@ __CPROVER_requires(g_mx == g_sx && g_my == g_sy) __CPROVER_requires(OUTSIDE(mask
 __CPROVER_ensures(verif_exc == 0 || verif_exc == EXC_runtime_error)
 __CPROVER_ensures(verif_exc == 0 ==> (BLIT_HITS ? D4_RULE(MASKIMG) : D4_OLD))
 __CPROVER_ensures(verif_exc != 0 ==> D4_OLD)
-__CPROVER_assigns(D_ASSIGNS, g_cw, g_ch);
+__CPROVER_assigns(D_ASSIGNS, CLAMP_GHOSTS);
 
 void Image_blend_blit(BLIT_PARAMS)
 BLIT_REQ(self, source) BLIT_ENS_ARITH(BLEND, TUP_DEFM);
@@ -474,4 +485,179 @@ BLIT_REQ(self, source)
 __CPROVER_requires(g_ci_dr == g_dr && g_ci_dg == g_dg && g_ci_db == g_db && g_ci_da == g_da && g_ci_sr == g_sr && g_ci_sg == g_sg && g_ci_sb == g_sb && g_ci_sa == g_sa)
 BLIT_ENS(CB64);
 
+
+/* ================= whole-image transforms ================= */
+/* invert: every stored channel c becomes max_value - c (alpha included; a canvas without alpha channel keeps reporting alpha == max_value) */
+#define INVERT_R_(dr, dg, db, da) WCH(MX - (dr), self)
+#define INVERT_G_(dr, dg, db, da) WCH(MX - (dg), self)
+#define INVERT_B_(dr, dg, db, da) WCH(MX - (db), self)
+#define INVERT_A_(dr, dg, db, da) WA(MX - (da), self)
+#define INVERT_R INVERT_R_(g_dr, g_dg, g_db, g_da)
+#define INVERT_G INVERT_G_(g_dr, g_dg, g_db, g_da)
+#define INVERT_B INVERT_B_(g_dr, g_dg, g_db, g_da)
+#define INVERT_A INVERT_A_(g_dr, g_dg, g_db, g_da)
+void Image_invert(Image* self)
+DST_REQ(self)
+__CPROVER_ensures(verif_exc == 0)
+__CPROVER_ensures(D4_RULE(INVERT))
+__CPROVER_assigns(D_ASSIGNS);
+
+/* set_alpha_from_mask_color: colour channels kept; alpha := 0 where the pixel has the key colour, max_value elsewhere */
+#define ALPHAKEY_R_(dr, dg, db, da) WCH(dr, self)
+#define ALPHAKEY_G_(dr, dg, db, da) WCH(dg, self)
+#define ALPHAKEY_B_(dr, dg, db, da) WCH(db, self)
+#define ALPHAKEY_A_(dr, dg, db, da) WA(((dr) == r && (dg) == g && (db) == b) ? 0 : MX, self)
+#define ALPHAKEY_R ALPHAKEY_R_(g_dr, g_dg, g_db, g_da)
+#define ALPHAKEY_G ALPHAKEY_G_(g_dr, g_dg, g_db, g_da)
+#define ALPHAKEY_B ALPHAKEY_B_(g_dr, g_dg, g_db, g_da)
+#define ALPHAKEY_A ALPHAKEY_A_(g_dr, g_dg, g_db, g_da)
+void Image_set_alpha_from_mask_color(Image* self, uint64_t r, uint64_t g, uint64_t b)
+DST_REQ(self)
+__CPROVER_ensures(verif_exc == 0)
+__CPROVER_ensures(D4_RULE(ALPHAKEY))
+__CPROVER_assigns(D_ASSIGNS);
+#define r C_R(c)
+#define g C_G(c)
+#define b C_B(c)
+void Image_set_alpha_from_mask_color_c(Image* self, uint32_t c)
+DST_REQ(self)
+__CPROVER_ensures(verif_exc == 0)
+__CPROVER_ensures(D4_RULE(ALPHAKEY))
+__CPROVER_assigns(D_ASSIGNS);
+#undef r
+#undef g
+#undef b
+
+#ifdef C07_GHOST2
+/* mirrors: E is the mirror image of D; view'(x,y) == view(w-1-x, y) reads "D gets the old E and E the old D" */
+#define E4(R, G, B, A) (g_er == (R) && g_eg == (G) && g_eb == (B) && g_ea == (A))
+#define PAIR_REQ(self, ex, ey) DST_REQ(self) \
+  __CPROVER_requires(g_ex == (ex) && g_ey == (ey)) __CPROVER_requires(GHOST_WF(self, g_er, g_eg, g_eb, g_ea)) \
+  __CPROVER_requires((g_ex == g_dx && g_ey == g_dy) ==> E4(g_dr, g_dg, g_db, g_da))
+#define SWAP_ENS __CPROVER_ensures(verif_exc == 0) \
+  __CPROVER_ensures(D4(__CPROVER_old(g_er), __CPROVER_old(g_eg), __CPROVER_old(g_eb), __CPROVER_old(g_ea))) \
+  __CPROVER_ensures(E4(OLD_DR, OLD_DG, OLD_DB, OLD_DA)) \
+  __CPROVER_assigns(D_ASSIGNS, g_er, g_eg, g_eb, g_ea)
+void Image_reverse_horizontal(Image* self)
+PAIR_REQ(self, self->width - 1 - g_dx, g_dy) SWAP_ENS;
+void Image_reverse_vertical(Image* self)
+PAIR_REQ(self, g_dx, self->height - 1 - g_dy) SWAP_ENS;
+/* lemmas: mirroring twice is the identity */
+#define ID2_ENS __CPROVER_ensures(verif_exc == 0) __CPROVER_ensures(D4_OLD) \
+  __CPROVER_ensures(E4(__CPROVER_old(g_er), __CPROVER_old(g_eg), __CPROVER_old(g_eb), __CPROVER_old(g_ea))) __CPROVER_assigns(D_ASSIGNS, g_er, g_eg, g_eb, g_ea)
+void L_reverse_horizontal_twice(Image* self)
+PAIR_REQ(self, self->width - 1 - g_dx, g_dy) ID2_ENS;
+void L_reverse_vertical_twice(Image* self)
+PAIR_REQ(self, g_dx, self->height - 1 - g_dy) ID2_ENS;
+#endif
+/* lemma: inverting twice is the identity */
+void L_invert_twice(Image* self)
+DST_REQ(self)
+__CPROVER_ensures(verif_exc == 0)
+__CPROVER_ensures(D4_OLD)
+__CPROVER_assigns(D_ASSIGNS);
+
+/* ================= axis-aligned (dashed) lines ================= */
+/* for ANY arguments: out_of_range never escapes; no pixel off the segment [lo,hi] x {line} changes; a pixel that changes gets exactly the
+ * colour; a solid line (dash_length == 0) whose end points lie inside the canvas colours every pixel of the segment.
+ * (Which pixels a DASHED line or a line that starts outside the canvas colours is not decided here: the code stops at the first
+ * out-of-canvas pixel, see props/C07.py NOT_DECIDED.) */
+#define COLOURED D4(WCH(r, self), WCH(g, self), WCH(b, self), WA(a, self))
+#define HLINE_SOLID_INSIDE (dash_length == 0 && x1 >= 0 && x2 < self->width && y >= 0 && y < self->height)
+#define VLINE_SOLID_INSIDE (dash_length == 0 && y1 >= 0 && y2 < self->height && x >= 0 && x < self->width)
+#define HLINE_ENS \
+  __CPROVER_ensures(verif_exc == 0) \
+  __CPROVER_ensures((g_dy != y || g_dx < x1 || g_dx > x2) ==> D4_OLD) \
+  __CPROVER_ensures(D4_OLD || COLOURED) \
+  __CPROVER_ensures((HLINE_SOLID_INSIDE && g_dy == y && x1 <= g_dx && g_dx <= x2) ==> COLOURED) \
+  __CPROVER_assigns(D_ASSIGNS)
+#define VLINE_ENS \
+  __CPROVER_ensures(verif_exc == 0) \
+  __CPROVER_ensures((g_dx != x || g_dy < y1 || g_dy > y2) ==> D4_OLD) \
+  __CPROVER_ensures(D4_OLD || COLOURED) \
+  __CPROVER_ensures((VLINE_SOLID_INSIDE && g_dx == x && y1 <= g_dy && g_dy <= y2) ==> COLOURED) \
+  __CPROVER_assigns(D_ASSIGNS)
+void Image_draw_horizontal_line(Image* self, ssize_t x1, ssize_t x2, ssize_t y, ssize_t dash_length, uint64_t r, uint64_t g, uint64_t b, uint64_t a)
+DST_REQ(self)
+__CPROVER_requires(COORD_OK(x1) && COORD_OK(x2) && COORD_OK(y) && COORD_OK(dash_length))
+HLINE_ENS;
+void Image_draw_vertical_line(Image* self, ssize_t x, ssize_t y1, ssize_t y2, ssize_t dash_length, uint64_t r, uint64_t g, uint64_t b, uint64_t a)
+DST_REQ(self)
+__CPROVER_requires(COORD_OK(x) && COORD_OK(y1) && COORD_OK(y2) && COORD_OK(dash_length))
+VLINE_ENS;
+#define r C_R(c)
+#define g C_G(c)
+#define b C_B(c)
+#define a C_A(c)
+void Image_draw_horizontal_line_c(Image* self, ssize_t x1, ssize_t x2, ssize_t y, ssize_t dash_length, uint32_t c)
+DST_REQ(self)
+__CPROVER_requires(COORD_OK(x1) && COORD_OK(x2) && COORD_OK(y) && COORD_OK(dash_length))
+HLINE_ENS;
+void Image_draw_vertical_line_c(Image* self, ssize_t x, ssize_t y1, ssize_t y2, ssize_t dash_length, uint32_t c)
+DST_REQ(self)
+__CPROVER_requires(COORD_OK(x) && COORD_OK(y1) && COORD_OK(y2) && COORD_OK(dash_length))
+VLINE_ENS;
+#undef r
+#undef g
+#undef b
+#undef a
+/* the outlined dash selector x / dash_length: only its freedom from undefined behaviour matters (it selects a branch) */
+ssize_t x_h_div1(ssize_t x, ssize_t dash_length)
+__CPROVER_requires(dash_length != 0 && COORD_OK(x) && COORD_OK(dash_length))
+__CPROVER_ensures(1)
+__CPROVER_assigns();
+ssize_t x_v_div1(ssize_t y, ssize_t dash_length)
+__CPROVER_requires(dash_length != 0 && COORD_OK(y) && COORD_OK(dash_length))
+__CPROVER_ensures(1)
+__CPROVER_assigns();
+
+/* ================= draw_text_v (the formatted text is the parameter buffer) ================= */
+/* for any byte string and any position: out_of_range never escapes, every glyph index font[ch][yy * 5 + xx] is inside the 96 x 35 table
+ * (array bounds check on the table extracted from ImageTextFont.hh), no signed overflow in the cursor arithmetic.
+ * Which pixels a text colours is not decided (NOT_DECIDED); the drawing goes through fill_rect and write_pixel only. */
+#define TEXT_MAX ((size_t)1 << 40)
+void Image_draw_text_v(Image* self, ssize_t x, ssize_t y, ssize_t* width, ssize_t* height, uint64_t r, uint64_t g, uint64_t b, uint64_t a,
+                       uint64_t br, uint64_t bg, uint64_t bb, uint64_t ba, const char* buffer, size_t buffer_size)
+DST_REQ(self)
+__CPROVER_requires(!g_tup_ok)
+__CPROVER_requires(-(C07_CMAX / 2) < x && x < C07_CMAX / 2 && -(C07_CMAX / 2) < y && y < C07_CMAX / 2 && buffer_size <= TEXT_MAX)
+__CPROVER_requires(__CPROVER_is_fresh(buffer, buffer_size))
+__CPROVER_requires((width == 0 || __CPROVER_w_ok(width, sizeof(ssize_t))) && (height == 0 || __CPROVER_w_ok(height, sizeof(ssize_t))))
+__CPROVER_ensures(verif_exc == 0)
+__CPROVER_assigns(D_ASSIGNS; width != 0: *width; height != 0: *height);
+
+/* ================= the colour rules with their arithmetic written out (statement of record for the blending variants) =================
+ * Lemma wrappers (harness/C07/canvas.c: L_*_rule) carry these postconditions; each wrapper chooses the function point (tuple := the actual
+ * arguments and the entry value of D, g_bo := the specification's blend of the tuple) and calls the real function, bound by its contract. */
+#define XFILL_R_(dr, dg, db, da) ((a) == 0xFF ? WCH(r, self) : WCH(BL8(a, r, dr), self))
+#define XFILL_G_(dr, dg, db, da) ((a) == 0xFF ? WCH(g, self) : WCH(BL8(a, g, dg), self))
+#define XFILL_B_(dr, dg, db, da) ((a) == 0xFF ? WCH(b, self) : WCH(BL8(a, b, db), self))
+#define XFILL_A_(dr, dg, db, da) ((a) == 0xFF ? WA(a, self) : WA(BL8(a, a, da), self))
+#define XBLIT_R_(dr, dg, db, da) (g_sa == 0 ? (dr) : g_sa == 0xFF ? WCH(g_sr, self) : WCH(BL8(g_sa, g_sr, dr), self))
+#define XBLIT_G_(dr, dg, db, da) (g_sa == 0 ? (dg) : g_sa == 0xFF ? WCH(g_sg, self) : WCH(BL8(g_sa, g_sg, dg), self))
+#define XBLIT_B_(dr, dg, db, da) (g_sa == 0 ? (db) : g_sa == 0xFF ? WCH(g_sb, self) : WCH(BL8(g_sa, g_sb, db), self))
+#define XBLIT_A_(dr, dg, db, da) (g_sa == 0 ? (da) : g_sa == 0xFF ? WA(g_sa, self) : WA(BL8(g_sa, g_sa, da), self))
+#define XBLEND_R_(dr, dg, db, da) (g_sa == MX ? WCH(g_sr, self) : g_sa != 0 ? WCH(BLM(g_sr, g_sa, dr, MX), self) : (dr))
+#define XBLEND_G_(dr, dg, db, da) (g_sa == MX ? WCH(g_sg, self) : g_sa != 0 ? WCH(BLM(g_sg, g_sa, dg, MX), self) : (dg))
+#define XBLEND_B_(dr, dg, db, da) (g_sa == MX ? WCH(g_sb, self) : g_sa != 0 ? WCH(BLM(g_sb, g_sa, db, MX), self) : (db))
+#define XBLEND_A_(dr, dg, db, da) (g_sa == MX ? WA(g_sa, self) : g_sa != 0 ? WA(BLM(g_sa, g_sa, da, MX), self) : (da))
+#define EFFA ((source_alpha * g_sa) / MX)
+#define XBLENDA_R_(dr, dg, db, da) (EFFA == MX ? WCH(g_sr, self) : EFFA != 0 ? WCH(BLM(g_sr, EFFA, dr, MX), self) : (dr))
+#define XBLENDA_G_(dr, dg, db, da) (EFFA == MX ? WCH(g_sg, self) : EFFA != 0 ? WCH(BLM(g_sg, EFFA, dg, MX), self) : (dg))
+#define XBLENDA_B_(dr, dg, db, da) (EFFA == MX ? WCH(g_sb, self) : EFFA != 0 ? WCH(BLM(g_sb, EFFA, db, MX), self) : (db))
+#define XBLENDA_A_(dr, dg, db, da) (EFFA == MX ? WA(EFFA, self) : EFFA != 0 ? WA(da, self) : (da))
+#define TUP_GHOSTS g_tup_ok, g_t_al, g_t_cr, g_t_cg, g_t_cb, g_t_ca, g_t_dr, g_t_dg, g_t_db, g_t_da, g_t_mx, g_t_e1, g_t_e2, g_bo_r, g_bo_g, g_bo_b, g_bo_a, g_bo_e
+
+void L_fill_rect_rule(Image* self, ssize_t x, ssize_t y, ssize_t w, ssize_t h, uint64_t r, uint64_t g, uint64_t b, uint64_t a)
+DST_REQ(self)
+__CPROVER_requires(COORD_OK(x) && COORD_OK(y) && COORD_OK(w) && COORD_OK(h))
+__CPROVER_ensures(verif_exc == 0)
+__CPROVER_ensures(INRECT(g_dx, g_dy, x, y, w, h) ? D4_RULE(XFILL) : D4_OLD)
+__CPROVER_assigns(D_ASSIGNS, TUP_GHOSTS);
+#define L_BLIT_RULE(name, n, extra) void name(BLIT_PARAMS extra) BLIT_REQ(self, source) \
+  __CPROVER_ensures(verif_exc == 0) __CPROVER_ensures(BLIT_HITS ? D4_RULE(n) : D4_OLD) __CPROVER_assigns(D_ASSIGNS, CLAMP_GHOSTS, TUP_GHOSTS);
+L_BLIT_RULE(L_blit_rule, XBLIT, )
+L_BLIT_RULE(L_blend_blit_rule, XBLEND, )
+#define COMMA_ALPHA , uint64_t source_alpha
+L_BLIT_RULE(L_blend_blit_alpha_rule, XBLENDA, COMMA_ALPHA)
 #endif
